@@ -913,7 +913,8 @@ class C12(_WorkCheck):
     # way (a) of the tie for the sequence-number arithmetic: the loop test / drained test / increments of iv_work.c are
     # re-translated from the current source on every run (gen/c2gallina.py -> Gen/LeafWork.v) and MT/WorkLink.v proves them
     # equal to what MT/WorkMT.v uses (theorem C12_seq_tests_are_the_code)
-    coq_targets = _WorkCheck.coq_targets + [t for t in ["theories/Base/CSem.vo", "theories/Gen/LeafWork.vo", "theories/MT/WorkLink.vo"]
+    coq_targets = _WorkCheck.coq_targets + [t for t in ["theories/Base/CSem.vo", "theories/Gen/LeafWork.vo", "theories/MT/WorkLink.vo",
+                                                        "theories/MT/WorkLink2.vo"]
                                             if t[:-1] in _listed()]
     trusted = _WorkCheck.trusted + [
         "gen/c2gallina.py (class CTr: clang JSON AST -> Gen/LeafWork.v, rerun on every check) and the C integer semantics Base/CSem.v "
@@ -1039,6 +1040,21 @@ class C13(_WorkCheck):
         "Bet;M60;Z1111111111111111111111111111;L0:wc0=2 tc1 y wp0;H0h1:wS0.0.3 wS0.0.4",
         "Bet;M80;Z%s;L0:wc0=2 ws0.0 tr0+15000000000;H0t0:tc1 y y y wp0;H0h1:wS0.0.1 wS0.0.2 hx" % ("2" * 300),
     ]
+
+    # way (a) of the tie for the guards C13 rests on (release test of iv_work_event, the death of a worker and its
+    # notification): Gen/LeafWork.v is re-translated on every run, MT/WorkLink2.v links it to the critical sections of the model
+    coq_targets = _WorkCheck.coq_targets + [t for t in ["theories/Base/CSem.vo", "theories/Gen/LeafWork.vo", "theories/MT/WorkLink2.vo"]
+                                            if t[:-1] in _listed()]
+
+    def pre_proof(self, ctx):
+        return leafgen.regenerate(["LeafWork.v"])
+
+    def proofs(self, ctx):
+        return leafgen.explain(
+            LineCheck.proofs(self, ctx), "WorkLink2", "C13_release_test_is_the_code / C13_worker_death_is_the_code (MT/WorkLink2.v)",
+            "the release test of iv_work_event (`!pool->started_threads && iv_list_empty(&pool->work_done)`) or the bookkeeping of "
+            "__iv_work_thread_die in the current src/iv_work.c, as translated by gen/c2gallina.py into Gen/LeafWork.v, is not what "
+            "cs_free_test / cs_die of MT/WorkMT.v do any more")
 
     def mix(self, ctx):
         q = ctx.tier == "quick"
